@@ -79,7 +79,10 @@ pub fn scenario(idx: usize, seed: u64, mode: Mode, max_steps: usize) -> Scenario
         let mut w = World::new(seed);
         let mut rng = StdRng::seed_from_u64(seed ^ 0xc0409);
         let n = rng.gen_range(3..=5usize);
-        let it_ms: u64 = *[2_000u64, 3_000, 5_000, 10_000].get(rng.gen_range(0..4)).unwrap();
+        // one scenario in eight leaves the idle timeout unspecified in the QUIC config it supplies
+        // (keep-alive or other fields set): the documented default of 30 s must then apply
+        let idle_unspecified = rng.gen_range(0..8) == 0;
+        let it_ms: u64 = if idle_unspecified { 30_000 } else { *[2_000u64, 3_000, 5_000, 10_000].get(rng.gen_range(0..4)).unwrap() };
         let ka_ms: Option<u64> = match rng.gen_range(0..3) {
             0 => None,
             1 => Some(it_ms / 3),
@@ -114,7 +117,7 @@ pub fn scenario(idx: usize, seed: u64, mode: Mode, max_steps: usize) -> Scenario
             c.config.connect_timeout_ms = Some(2_000);
             c.config.shutdown_idle_timeout_ms = Some(1_000);
             let mut q = anemo::QuicConfig::default();
-            q.max_idle_timeout_ms = Some(it_ms);
+            q.max_idle_timeout_ms = if idle_unspecified { None } else { Some(it_ms) };
             q.keep_alive_interval_ms = ka_ms;
             c.config.quic = Some(q);
             if limited == Some(i) {
@@ -386,7 +389,7 @@ pub fn scenario(idx: usize, seed: u64, mode: Mode, max_steps: usize) -> Scenario
             Mode::C09 => h.c09.clone(),
         };
         let sample = json!({
-            "scenario": idx, "seed": seed, "nodes": n, "idle_timeout_ms": it_ms, "keep_alive_ms": ka_ms,
+            "scenario": idx, "seed": seed, "nodes": n, "idle_timeout_ms": it_ms, "idle_timeout_left_unspecified": idle_unspecified, "keep_alive_ms": ka_ms,
             "t_q_ms": t_q.as_millis() as u64, "limited_node": limited,
             "history": h.trace.iter().take(80).collect::<Vec<_>>(),
             "new_peer_events": new_events, "lost_peer_events": lost_events,
@@ -452,7 +455,7 @@ async fn quiescent_check(
         .map(|x| x.net.peers().into_iter().collect())
         .collect();
     let it = Duration::from_millis(
-        h.nodes[0].cfg.config.quic.as_ref().and_then(|q| q.max_idle_timeout_ms).unwrap_or(10_000),
+        h.nodes[0].cfg.config.quic.as_ref().and_then(|q| q.max_idle_timeout_ms).unwrap_or(30_000),
     );
     for a in 0..n {
         for b in 0..n {
